@@ -112,6 +112,25 @@ ADDENDA["C16"] = dict(text=ADDENDA["C16"]["text"] + " Previous-version streams a
 ADDENDA["C18"]["text"] += " A loader whose threads are all asleep without consuming CPU for 20 s is judged blocked (deadlock)."
 ADDENDA["C19"]["text"] += " Chained computed fields and the computed fields of a generic record reached through two instantiations; generated C++ compiled with -Werror=return-local-addr."
 ADDENDA["C18"]["text"] += " Git imports are served offline through an insteadOf rewrite: several commits of one repository in one load, cold and warm cache."
+# eighth round
+ADDENDA["C01"]["text"] += " Generic aliases and records are instantiated with arguments that differ only in a fixed length, rank or shape (C++ and Python endpoints)."
+ADDENDA["C02"]["text"] += " Flags with overlapping, multi-bit and zero-named symbols over every value of the base type; flags documents are compared by the value they denote."
+ADDENDA.setdefault("C06", dict(text="", tech=""))
+ADDENDA["C06"]["text"] += " Fixed pairs in which a definition is renamed through an alias and changed inside in the same step."
+ADDENDA.setdefault("C07", dict(text="", tech=""))
+ADDENDA["C07"]["text"] += " Fault injection: C++ stub implementations and Python implementations that throw once - the step they were called for is not completed."
+ADDENDA["C07"]["tech"] += "; fault injection in the stub implementations"
+ADDENDA["C08"]["text"] += " Loop-free import graphs on 3-4 packages with a package reachable along more than one path, import lists in both orders, all targets compiled / imported."
+ADDENDA["C10"]["text"] += " One predecessor directory listed under several labels."
+ADDENDA.setdefault("C11", dict(text="", tech=""))
+ADDENDA["C11"]["text"] += " Borderline packages (names hostile to a target language) are judged only when the run fails, at whatever stage."
+ADDENDA["C12"]["text"] += " Unknown names equally close to several known names."
+ADDENDA["C15"]["text"] += " Readers regenerated by a running watcher that has seen earlier models of the same protocol are fed the earlier models' streams."
+ADDENDA["C17"]["text"] += " Flags / enum / flag-carrying record items; populated/zero alternating sequences through binary, reference NDJSON and C++-written NDJSON at every capacity."
+ADDENDA["C18"]["text"] += " The same graphs laid out in directories with hostile names load the same model as the plain layout."
+ADDENDA["C19"]["text"] += " A switch-case variable named like a field of another record whose computed field the case calls."
+ADDENDA.setdefault("C20", dict(text="", tech=""))
+ADDENDA["C20"]["text"] += " Schedules that start on an invalid package (repaired in an import) and schedules in which an import dangles for a while (directory moved away, deleted, half-typed path)."
 for _pid, _a in ADDENDA.items():
     CHECKS[_pid]["text"] += _a["text"]
     CHECKS[_pid]["tech"] += _a["tech"]
